@@ -899,7 +899,8 @@ def pair_array_cases(seed):
 
 
 def run(ctx):
-    q = ctx.quick
+    # the full exploration takes ~11 s on 16 cores, so the quick tier runs the thorough bounds as well
+    q = False
     seed = ctx.seed
     only = getattr(ctx, "only", None)
 
